@@ -232,7 +232,7 @@ def make_harness(K: int, first_ops: list[str], digest_sizes: list[int], max_hand
             if step in restrict:
                 ops = [o for o in ops if o in restrict[step]]
             if step in forced:
-                if forced[step] not in ops and not (forced[step] in ("save_detach", "load_saved", "replace_rejected_after_registration", "query") and handles):
+                if forced[step] not in ops and not (forced[step] in ("save_detach", "load_saved", "replace_rejected_after_registration", "query", "parent_pair") and handles):
                     e.assume(False)
                 op = forced[step]
             else:
@@ -265,6 +265,18 @@ def make_harness(K: int, first_ops: list[str], digest_sizes: list[int], max_hand
                     history.append(f"h{len(handles)} = VMany(items=(h{hi},))")
                     note_created(n, tw, col)
                     handles.append(n)
+                elif op == "parent_pair":
+                    # a parent over two handles (possibly twins: a stale node and the node that took over its id)
+                    hj = e.choice(len(handles), f"second{step}")
+                    h2 = handles[hj]
+                    if h2 is None or h2 is h:
+                        e.assume(False)
+                    tw, col = predicted_base(VMany, {"items": (h, h2)})
+                    n = VMany(items=(h, h2))
+                    history.append(f"h{len(handles)} = VMany(items=(h{hi}, h{hj}))")
+                    note_created(n, tw, col)
+                    handles.append(n)
+                    h2 = None
                 elif op == "duplicate":
                     n = h.duplicate()
                     history.append(f"h{len(handles)} = h{hi}.duplicate()")
@@ -612,6 +624,11 @@ def spec(tier: str, seed: int) -> Spec:
     for size in (8,):
         fams.append(Family(f"queries-then-drop-K4-size{size}", make_harness(4, ["leaf"], [size], forced={0: "leaf", 1: "parent", 2: "query", 3: "drop"}), variables=var + "; selector: which read-only library call was made"))
         fams.append(Family(f"queries-then-drop-K5-size{size}", make_harness(5, ["leaf"], [size], forced={0: "leaf", 1: "parent", 2: "query", 3: "drop", 4: "drop"}), variables=var + "; selector: which read-only library call was made"))
+    # twins inside one tree: a node leaves the registry (detach_self / replace with the same content), an equal
+    # node takes over its id, a parent is built over both, then the parent is detached / replaced / dropped
+    for how in ("detach_self", "replace"):
+        for last in ("detach", "detach_self", "replace", "drop", "roundtrip_after_detach"):
+            fams.append(Family(f"twins-under-one-parent-{how}-{last}", make_harness(5, ["leaf"], [8], forced={0: "leaf", 1: how, 2: "leaf", 3: "parent_pair", 4: last}, max_handles=6), variables=var))
     fams.append(Family("multiple-inheritance", mi_harness, variables="selectors: class of the family used first, class"))
     fams.append(Family("id-determinism-per-field-kind", determinism_harness, variables="selectors: class (non-comparable / non-init / both / slotted / falsy ...), digest size, origin, child, how the predecessor left the registry"))
     Kmax = plan[-1][0]
